@@ -81,8 +81,11 @@ func Profile(prop string, rng *prng.Rand, idx uint64) *GenCfg {
 	if prop != "C09" && prop != "C14" && prop != "C15" {
 		c.PRelatives = pickF(rng, 0, 0.03, 0.08)
 	}
+	c.PBigList = 0.02
+	c.PGC = pickF(rng, 0, 0, 0.01, 0.04)
 	switch prop {
 	case "C01":
+		c.PBigList = pickF(rng, 0.02, 0.06, 0.2)
 		c.Steps = 12 + rng.Intn(30)
 		swarm(rng, c.W, pointOps, 1, 3, 0.3)
 		swarm(rng, c.W, scalarOps, 1, 3, 0.3)
@@ -146,6 +149,13 @@ func Profile(prop string, rng *prng.Rand, idx uint64) *GenCfg {
 		swarm(rng, c.W, elemOps, 1, 4, 0.1)
 		c.PImport = 0.1
 		c.Enum = "alias"
+		if idx%5 == 4 {
+			// field-only world: the element operations are enumerated on operands
+			// that no point or scalar operation had to produce first
+			c.NP, c.NS = 0, 0
+			c.NE = 8 + rng.Intn(5)
+			c.PImport = 0
+		}
 	case "C12":
 		c.Steps = 20 + rng.Intn(50)
 		swarm(rng, c.W, pointOps, 1, 8, 0.2)
